@@ -234,6 +234,9 @@ class World:
         self.need_discovery = any(getattr(o, "needs_ops", False) for o in self.obs)
         self.last_backward = None
         self.last_inplace = None
+        self.last_conv = None
+        self.alias_of = {}
+        self.alias_of_all = {}
         self.last_load = None
         self.checkpoints = []
         self.grad_read_errors = []
@@ -430,6 +433,8 @@ class World:
         return Outcome("skip", msg=why)
 
     def _new_tinfo(self, h, t, const, nid, fam=None, ids=None, foreign=False, orig_w=True):
+        if t.dtype.kind == "f" and t.dtype.itemsize < np.dtype(self.tol_dtype).itemsize:
+            self.tol_dtype = t.dtype.type  # the coarsest float precision seen decides the tolerance
         i = TInfo()
         i.const = const
         i.nid = nid
@@ -460,6 +465,7 @@ class World:
 
     def _drop_T(self, h):
         i = self.info.pop(h, None)
+        self.alias_of.pop(h, None)
         if i is not None:
             i.fam.members.pop(h, None)
         self.T.pop(h, None)
@@ -531,9 +537,13 @@ class World:
                     np.copyto(sa, a, casting="unsafe")
                     if not w:
                         sa.flags.writeable = False
+        by_id = {id(a): ha for ha, a in self.A.items()}
         for h, t in self.T.items():
             if not self.judged04(h):
                 old = self.S.get(h)
+                if id(t.data) in by_id:
+                    self.S[h] = self.SA[by_id[id(t.data)]]  # the tensor's memory IS the caller's array
+                    continue
                 new = clone_layout(t.data)
                 if old is not None and not old.flags.writeable and new.flags.writeable:
                     new.flags.writeable = False  # keep the native flag (e.g. broadcast views)
@@ -613,19 +623,21 @@ class World:
             return self._skip("ref")
         a = self.A[src]
         c = ev.get("constant")
-        fl = is_float(a.dtype)
+        npdt = dt(ev["dtype"]) if ev.get("dtype") else None
+        fl = is_float(npdt if npdt is not None else a.dtype)
         expect_fail = (not fl) and c is False and self.tracking
+        kw = {} if npdt is None else {"dtype": npdt}
         try:
             if how == "tensor_copy":
-                t = mg.tensor(a, constant=c)
+                t = mg.tensor(a, constant=c, **kw)
             elif how == "tensor_nocopy":
-                t = mg.tensor(a, constant=c, copy=False)
+                t = mg.tensor(a, constant=c, copy=False, **kw)
             elif how == "astensor":
-                t = mg.astensor(a, constant=c)
+                t = mg.astensor(a, constant=c, **kw)
             elif how == "Tensor":
-                t = Tensor(a, constant=c)
+                t = Tensor(a, constant=c, **kw)
             elif how == "Tensor_nocopy":
-                t = Tensor(a, constant=c, copy=False)
+                t = Tensor(a, constant=c, copy=False, **kw)
             else:
                 return self._skip("how")
         except Exception as e:
@@ -634,9 +646,10 @@ class World:
         if expect_fail:
             del t
             return Outcome("nofail")
-        shares = how in ("tensor_nocopy", "astensor", "Tensor_nocopy")
+        shares = how in ("tensor_nocopy", "astensor", "Tensor_nocopy") and (npdt is None or npdt == a.dtype)
+        self.last_conv = {"src_a": src, "how": how, "expect_shares": shares, "shares": bool(t.data.size and np.shares_memory(t.data, a)), "is_same_array": t.data is a, "out": h}
         self.T[h] = t
-        self.S[h] = self.SA[src] if shares else self.SA[src].copy()
+        self.S[h] = self.SA[src] if shares else np.array(self.SA[src], dtype=t.dtype, copy=True)
         const = c if c is not None else (not fl)
         nid = self.tape.leaf(np.asarray(a, dtype=np.float64), const)
         i = self._new_tinfo(h, t, const, nid, foreign=True, orig_w=(self.a_orig[src] if shares else True))
@@ -665,7 +678,7 @@ class World:
             self.a_orig[ha] = self.info[src].orig_w
             self.a_entered[ha] = self.info[src].entered
         self.A[ha] = a
-        self.SA[ha] = np.array(a, copy=True)
+        self.SA[ha] = self.S[src] if (what != "grad" and a is t.data) else np.array(a, copy=True)
         self.a_kind[ha] = what
         self.a_origin[ha] = "grad" if what == "grad" else self.info[src].made_by
         return Outcome("ok")
@@ -1503,6 +1516,105 @@ class World:
         self.guard = bool(ev["on"])
         for o in self.obs:
             o.scope_event(self, "toggle", ev["on"])
+        return Outcome("ok")
+
+    # ------------------------------------------------------------------ conversions (C17)
+    def ev_conv(self, ev):
+        """conversion of an existing tensor: how in astensor | tensor_nocopy | tensor_copy | copy | astype | asarray"""
+        src, how = ev["src"], ev["how"]
+        if src not in self.T:
+            return self._skip("ref")
+        t = self.T[src]
+        si = self.info[src]
+        dtype = ev.get("dtype")
+        c = ev.get("constant")
+        npdt = dt(dtype) if dtype else None
+        out_dt = npdt if npdt is not None else t.dtype
+        expect_fail = self.tracking and c is False and not is_float(out_dt)
+        try:
+            if how == "astensor":
+                r = mg.astensor(t, dtype=npdt, constant=c)
+            elif how == "tensor_nocopy":
+                r = mg.tensor(t, dtype=npdt, constant=c, copy=False)
+            elif how == "tensor_copy":
+                r = mg.tensor(t, dtype=npdt, constant=c)
+            elif how == "copy":
+                r = t.copy(constant=c)
+            elif how == "astype":
+                r = t.astype(out_dt, constant=c)
+            elif how == "asarray":
+                r = mg.asarray(t)
+            else:
+                return self._skip("how")
+        except Exception as e:
+            st = "fail" if expect_fail else "unexp"
+            return Outcome(st, type(e).__name__, str(e)[:200], expected_fail=expect_fail)
+        self.last_conv = {"src": src, "how": how, "result_is_src": r is t, "dtype_match": npdt is None or npdt == t.dtype, "const_match": c is None or c is bool(t.constant),
+                          "shares": isinstance(getattr(r, "data", r), np.ndarray) and getattr(r, "data", r).size > 0 and bool(np.shares_memory(getattr(r, "data", r), t.data)), "out": ev.get("out")}
+        if expect_fail:
+            return Outcome("nofail")
+        if how == "asarray":
+            ha = ev["out"]
+            if ha in self.A:
+                return self._skip("dup")
+            self.A[ha] = r
+            self.SA[ha] = self.S[src] if r is t.data else np.array(r, copy=True)
+            self.a_orig[ha] = si.orig_w
+            self.a_entered[ha] = si.entered
+            self.a_kind[ha] = "asarray"
+            self.a_origin[ha] = si.made_by
+            self.last_conv["is_data"] = r is t.data
+            return Outcome("ok")
+        h = ev["out"]
+        if h in self.T:
+            return self._skip("dup")
+        if r is t:
+            # the very same tensor: the handle is an alias
+            self.T[h] = r
+            self.S[h] = self.S[src]
+            self.info[h] = si
+            si.fam.members.setdefault(h, si.ids)
+            self.alias_of[h] = self.alias_of.get(src, src)
+            self.alias_of_all[h] = self.alias_of[h]
+            return Outcome("ok")
+        self.T[h] = r
+        shares = self.last_conv["shares"]
+        self.S[h] = self.S[src] if shares else np.array(r.data, copy=True)
+        const = bool(r.constant)
+        nid = self.tape.leaf(np.asarray(r.data, dtype=np.float64), const)
+        i = self._new_tinfo(h, r, const, nid, foreign=True, orig_w=si.orig_w if shares else True)
+        i.made_by = "conv:" + how
+        return Outcome("ok")
+
+    def ev_awrite(self, ev):
+        """the caller changes the contents of one of its own arrays through NumPy (C17: who sees it?)"""
+        ha = ev["a"]
+        if ha not in self.A:
+            return self._skip("ref")
+        a = self.A[ha]
+        if a.size == 0:
+            return self._skip("empty")
+        if not a.flags.writeable:
+            return Outcome("fail", "ValueError", "read-only", expected_fail=True, fault="caller_write")
+        try:
+            a[...] = ev["val"]
+        except Exception as e:
+            return Outcome("fail", type(e).__name__, str(e)[:100], expected_fail=True)
+        sa = self.SA[ha]
+        wflag = sa.flags.writeable
+        if not wflag:
+            sa.flags.writeable = True
+        sa[...] = ev["val"]
+        if not wflag:
+            sa.flags.writeable = False
+        # physically shared memory that no live graph protects: the tape's leaves follow
+        for k, t in self.T.items():
+            if t.data.size and np.shares_memory(t.data, a):
+                ki = self.info[k]
+                ki.nid = self.tape.leaf(np.asarray(t.data, dtype=np.float64), ki.const)
+                if t.creator is not None or len(getattr(t, "_ops", ())) > 0:
+                    # only possible with the guard off: the caller corrupted a live graph
+                    self.grad_poisoned = True
         return Outcome("ok")
 
     # ------------------------------------------------------------------ save / load (S6)
